@@ -153,6 +153,25 @@ impl FrequencyCounter {
     }
 }
 
+/// Accessors used by the model-checking harness in /verif (never compiled without `--cfg cached_verif`).
+#[cfg(cached_verif)]
+impl FrequencyCounter {
+    pub(crate) fn verif_with_seeds(counters: TotalCounters, seeds: [u64; ROWS]) -> FrequencyCounter {
+        let total_counters = Self::next_power_2(counters);
+        FrequencyCounter { matrix: Self::matrix(total_counters), seeds, total_counters }
+    }
+    pub(crate) fn verif_rows(&self) -> Vec<Vec<u8>> { self.matrix.iter().map(|row| row.0.clone()).collect() }
+    pub(crate) fn verif_seeds(&self) -> [u64; ROWS] { self.seeds }
+    pub(crate) fn verif_total_counters(&self) -> TotalCounters { self.total_counters }
+}
+
+#[cfg(cached_verif)]
+pub(crate) fn verif_row_increment_at(bytes: Vec<u8>, position: u64) -> Vec<u8> { let mut row = Row(bytes); row.increment_at(position); row.0 }
+#[cfg(cached_verif)]
+pub(crate) fn verif_row_get_at(bytes: Vec<u8>, position: u64) -> FrequencyEstimate { Row(bytes).get_at(position) }
+#[cfg(cached_verif)]
+pub(crate) fn verif_row_half_counters(bytes: Vec<u8>) -> Vec<u8> { let mut row = Row(bytes); row.half_counters(); row.0 }
+
 #[cfg(test)]
 mod tests {
     use crate::cache::lfu::frequency_counter::{FrequencyCounter, MAX_VALUE_LOWER_FOUR_BITS, Row};
